@@ -97,6 +97,35 @@ def cloud(rng, d, kind):
     raise ValueError(kind)
 
 
+def large_hull(rl, size_kind):
+    """a cloud whose hull has MANY facets (more than 512): points in convex position on an ellipse (2-D: n points -> n facets)
+    or an ellipsoid (3-D: n points -> 2n-4 facets), or many points on a sphere / normally distributed in 4-5 dimensions.
+    size_kind 'just-above-block': the facet count is 1..8 above 512 or 1024 (sizes at which implementations that work through
+    the facets in blocks start a new, short block); 'arbitrary': any count between 513 and ~1500. The origin is well inside.
+    Returns (P, hull, description)."""
+    from scipy.spatial import ConvexHull
+    for _ in range(8):
+        if size_kind == "just-above-block":
+            d = int(rl.choice([2, 3])); target = int(rl.choice([512, 1024])) + int(rl.integers(1, 9))
+        else:
+            d = int(rl.choice([2, 3, 4, 5])); target = int(rl.integers(513, 1500))
+        axes_ = dyadic(rl, 0.75, 2, 2, size=d)
+        if d == 2:
+            ang = np.sort(rl.uniform(0, 2 * np.pi, target)); P = np.c_[np.cos(ang), np.sin(ang)] * axes_
+        else:
+            npts = (target + 5) // 2 if d == 3 else (int(rl.integers(90, 200)) if d == 4 else int(rl.integers(34, 50)))
+            P = rl.normal(size=(npts, d)); P = P / np.linalg.norm(P, axis=1, keepdims=True) * axes_
+        try:
+            hull = ConvexHull(P)
+        except Exception:  # noqa: BLE001
+            continue
+        nf = len(hull.equations)
+        if nf > 512 and nf <= 4000 and np.all(hull.equations[:, -1] < -0.05):
+            return P, hull, "%d points on an ellipsoid in %d-D" % (len(P), d)
+    ang = np.linspace(0, 2 * np.pi, 520, endpoint=False); P = np.c_[np.cos(ang), np.sin(ang)]
+    return P, ConvexHull(P), "regular 520-gon (fallback)"
+
+
 def in_conv_lp(points, target, tol):
     """tolerance-based membership (predicate evaluation on float outputs): exists u>=0, sum u=1, |sum u r - target|_inf <= tol"""
     from scipy.optimize import linprog
@@ -125,7 +154,12 @@ def run(R):
               "violations are measured relative to the row norm). Boundary "
               "hit: exact model alphaFor. Slice: exact model on the all-pairs branch; on the hull-edge branch every returned "
               "point must be an exact segment/plane intersection and every all-pairs intersection must lie in their hull. "
-              "Non-trivial: dimension >= 3 or a lattice/simplex/flat cloud.")
+              "LARGE instances (own stream, 2 per quick run): hulls with more than 512 facets - points in convex position on an "
+              "ellipse / ellipsoid in 2-3 dimensions with a facet count 1-8 above 512 or 1024, or an arbitrary count 513-1500 in "
+              "2-5 dimensions - and a few hundred or more than 4096 query vectors (more than 1e6 vector x facet products): every "
+              "returned multiple must be finite, positive and put the vector on the boundary, 15 sampled vectors (incl. vertex "
+              "directions) are compared with the exact model; 6 query points are projected onto the same hull (dual certificate). "
+              "Non-trivial: dimension >= 3 or a lattice/simplex/flat/large cloud.")
     jobs = []
     for k in range(n):
         if not R.want(k):
@@ -231,6 +265,65 @@ def run(R):
             R.driver.ask("s%d" % k, "section", ms(P), rs(cval))
             st, out = call(dreye.proj_P_to_simplex, given(rv, P, R, "P"), cval)
             jobs.append((c, nontriv, st, out, dict(P=P, cval=cval)))
+    # hulls with MANY facets (more than 512, incl. counts just above 512 / 1024) and MANY query vectors (more than 4096, more
+    # than 1e6 vector x facet products): own random stream. Every returned multiple is judged by the property predicate
+    # (finite, positive, alpha*b on the boundary); a random sample of the vectors also exactly by the model; a few query points
+    # are projected onto the same hull (nearest point, exact dual certificate).
+    nl = 2 if R.tier == "quick" else 10
+    for j in range(nl):
+        k = n + 100 + j
+        if not R.want(k):
+            continue
+        rl = R.rng(3, k)
+        size_kind = "just-above-block" if j % 2 == 0 else "arbitrary"
+        P, hull, descr = large_hull(rl, size_kind)
+        d = P.shape[1]; nfac = len(hull.equations)
+        many = bool(j % 2 == 1) if R.tier == "quick" else bool(rl.integers(2))
+        nq = int(rl.integers(4097, 4700)) if many else int(rl.integers(150, 400))
+        ekind = str(rl.choice(["qhull", "rescaled"]))
+        eq = hull.equations.copy()
+        if ekind == "rescaled":
+            eq = rescale_rows(rl, eq)
+        centre = np.round(P[hull.vertices].mean(0) * 64) / 64
+        eq0 = eq.copy(); eq0[:, -1] = eq[:, -1] + eq[:, :-1] @ centre
+        nv = min(8, len(hull.vertices))
+        Bv = np.vstack([P[hull.vertices[:nv]] - centre,                                   # vertex directions: several facets tie
+                        rl.normal(size=(nq - nv, d)) * dyadic(rl, 0.125, 8, 3, size=(nq - nv, 1))])
+        Bv = Bv[np.abs(Bv).sum(1) > 0]
+        cbase = dict(k=k, dim=d, cloud_kind="large-hull", cloud=descr + " (regenerate with --case %d)" % k, n_facets=nfac, facet_count=size_kind,
+                     n_queries=len(Bv), equations_kind=ekind)
+        R.count("large-hull:dim:%d" % d); R.count("large-hull:facets:%s" % size_kind); R.count("large-hull:facets-mod-512:%s" % ("1-8" if 1 <= nfac % 512 <= 8 else "other"))
+        R.count("large-hull:queries:%s" % (">4096" if len(Bv) > 4096 else "<=4096")); R.count("large-hull:products:%s" % (">1e6" if len(Bv) * nfac > 10 ** 6 else "<=1e6"))
+        R.count("alpha-equations:%s" % ekind)
+        Bi, Ei = given(rl, Bv, R, "B"), given(rl, eq0, R, "equations")
+        st, out = call(lambda: (dreye.alpha_for_B_with_P(Bi, Ei), dreye.B_with_P(Bi, Ei)))
+        if not (np.array_equal(np.asarray(Bi, dtype=float), Bv) and np.array_equal(np.asarray(Ei, dtype=float), eq0)):
+            R.failA(dict(cbase), "frame condition: alpha_for_B_with_P / B_with_P changed an argument in place")
+        rows = sorted(set(range(min(3, nv))) | set(int(i) for i in rl.permutation(len(Bv))[:12]))
+        for i in rows:
+            R.driver.ask("a%d_%d" % (k, i), "alpha", ms(eq0), vs(Bv[i]))
+        R.count("what:alpha"); R.count("cloud:large-hull")
+        jobs.append((dict(cbase, what="alpha", exactly_judged_rows=rows), (k, "alpha"), st, out, dict(Bv=Bv, eq0=eq0, rows=rows)))
+        # nearest point on the same hull (all facets in one quadratic programme)
+        ext = float(np.max(P.max(0) - P.min(0)))
+        vsel = P[hull.vertices[rl.integers(len(hull.vertices), size=6)]]
+        Q = np.vstack([vsel[:2] * dyadic(rl, 0.125, 0.875, 3, size=(2, 1)), vsel[2:5] * dyadic(rl, 1.25, 4, 2, size=(3, 1)),
+                       dyadic(rl, -2, 2, 2, size=(1, d)) * ext])
+        st, out = call(dreye.proj_B_to_hull, given(rl, Q, R, "B"), given(rl, eq, R, "equations"))
+        G = eq[:, :-1].copy(); h = -eq[:, -1]
+        lams = []
+        for q in Q:
+            try:
+                sol = solve_qp(np.eye(d), q.astype(float), -eq[:, :-1].T.copy(), eq[:, -1].copy(), 0, True)
+                lams.append(np.maximum(np.asarray(sol[4], dtype=float), 0.0))
+            except Exception:  # noqa: BLE001
+                lams.append(np.zeros(len(eq)))
+        if st == "ok":
+            for i, q in enumerate(Q):
+                R.driver.ask("n%d_%d" % (k, i), "projdual", d, ms(G), vs(h), vs(q), vs(lams[i]), vs(np.asarray(out)[i]))
+        rown = max(1.0, float(np.max(np.linalg.norm(G, axis=1))))
+        R.count("what:nearest"); R.count("nearest-equations:%s" % ekind)
+        jobs.append((dict(cbase, what="nearest", B=Q), (k, "nearest"), st, out, dict(G=G, h=h, Q=Q, ext=ext, rown=rown, eq=eq)))
     R.driver.run()
     for c, nontriv, st, out, X in jobs:
         k = c["k"]; what = c["what"]; d = c["dim"]
@@ -254,7 +347,8 @@ def run(R):
                 elif not ok:
                     # no certificate: is it really not the nearest point? compare with the auxiliary solve (search for a failing input)
                     try:
-                        ref = solve_qp(np.eye(d), q.astype(float), -c["equations"][:, :-1].T.copy(), c["equations"][:, -1].copy(), 0, True)[0]
+                        eq_ = X["eq"] if "eq" in X else c["equations"]
+                        ref = solve_qp(np.eye(d), q.astype(float), -eq_[:, :-1].T.copy(), eq_[:, -1].copy(), 0, True)[0]
                         dref = float(np.sum((ref - q) ** 2)); dimp = float(np.sum((out[i] - q) ** 2))
                     except Exception:  # noqa: BLE001
                         dref = None
@@ -264,7 +358,30 @@ def run(R):
                         R.failA(dict(c, query=q), "nearest-point certificate not established (gap %.3g)" % gap)
         elif what == "alpha":
             al, BP = np.asarray(out[0]), np.asarray(out[1]); Bv = X["Bv"]; eq0 = X["eq0"]
+            if "rows" in X:
+                # large instance: the property predicate on EVERY vector (the origin is strictly inside a bounded hull, so a
+                # positive multiple on the boundary exists for every non-zero vector); the exact model on the sampled rows below
+                sc = float(np.max(np.abs(eq0[:, -1]))) + 1.0
+                if al.shape != (len(Bv),) or BP.shape != Bv.shape:
+                    R.failB(dict(c, impl_shape=[al.shape, BP.shape]), "result shapes %s / %s for %d vectors" % (al.shape, BP.shape, len(Bv)), sig + ":shape"); continue
+                okv = np.isfinite(al) & (al > 0)
+                alz = np.where(okv, al, 0.0)
+                mx = np.max((alz[:, None] * Bv) @ eq0[:, :-1].T + eq0[:, -1], axis=1)
+                okb = np.abs(mx) <= 1e-9 * sc
+                okp = np.all(np.isclose(BP, alz[:, None] * Bv, rtol=1e-12, atol=1e-12), axis=1)
+                badrows = np.flatnonzero(~okv)
+                if len(badrows):
+                    i = int(badrows[0])
+                    R.failB(dict(c, b=Bv[i], impl=al[i], row=i, n_rows_failing=len(badrows)), "no positive multiple returned (alpha = %r) for a vector from the interior of a bounded hull with %d facets (%d of %d vectors)" % (al[i], len(eq0), len(badrows), len(Bv)), sig + ":no-positive-multiple")
+                    continue
+                badrows = np.flatnonzero(~(okb & okp))
+                if len(badrows):
+                    i = int(badrows[0])
+                    R.failB(dict(c, b=Bv[i], impl=float(al[i]), row=i, max_facet_value=float(mx[i])), "alpha*b is not on the hull boundary (max facet value %.3g; %d of %d vectors)" % (float(mx[i]), len(badrows), len(Bv)), sig + ":not-on-boundary")
+                    continue
             for i, b in enumerate(Bv):
+                if "rows" in X and i not in X["rows"]:
+                    continue
                 t = R.driver.get("a%d_%d" % (k, i)); tok = t.tok()
                 if tok == "none":
                     if np.isfinite(al[i]):
